@@ -7,6 +7,7 @@ import (
 	"go/token"
 	"go/types"
 	"math/big"
+	"sort"
 	"strconv"
 	"strings"
 
@@ -372,9 +373,35 @@ func (e *Env) pkgMember(name string) (SymVal, bool) {
 	return SymVal{}, false
 }
 
+// findPkgs resolves a package qualifier: exact path first, then module packages by last element.
+func (g *Global) findPkgs(q string) []*ssa.Package {
+	var out []*ssa.Package
+	if p, ok := g.spkgs[q]; ok {
+		out = append(out, p)
+	}
+	var paths []string
+	for path := range g.spkgs {
+		if path != q && strings.HasSuffix(path, "/"+q) {
+			paths = append(paths, path)
+		}
+	}
+	sort.Slice(paths, func(i, j int) bool {
+		mi, mj := strings.HasPrefix(paths[i], "go.starlark.net"), strings.HasPrefix(paths[j], "go.starlark.net")
+		if mi != mj {
+			return mi
+		}
+		return paths[i] < paths[j]
+	})
+	for _, p := range paths {
+		out = append(out, g.spkgs[p])
+	}
+	// module packages shadow std packages of the same name only when written with their path
+	return out
+}
+
 func (e *Env) pkgConst(pkg, name string) (SymVal, bool) {
-	for path, p := range e.c.g.spkgs {
-		if path == pkg || strings.HasSuffix(path, "/"+pkg) {
+	for _, p := range e.c.g.findPkgs(pkg) {
+		{
 			if m, ok := p.Members[name]; ok {
 				if nc, ok := m.(*ssa.NamedConst); ok {
 					v := e.c.constVal(e.st, nc.Value)
@@ -915,6 +942,25 @@ func (e *Env) call(ex *ast.CallExpr) (SymVal, error) {
 		}
 		op := map[string]string{"div": "div", "mod": "mod", "fdiv": "fdiv", "fmod": "fmod", "min": "imin", "max": "imax", "abs": "iabs"}[name]
 		return mkMath(app(op, as...)), nil
+	case "xor32", "xor64", "and32", "and64", "or32", "or64":
+		// the same uninterpreted bit operators the int-mode encoding of ^ & | uses
+		a, err := arg(0)
+		if err != nil {
+			return SymVal{}, err
+		}
+		b, err := arg(1)
+		if err != nil {
+			return SymVal{}, err
+		}
+		if c.bv {
+			return SymVal{}, fmt.Errorf("%s is for arith int only", name)
+		}
+		ufn := map[string]string{"xor": "bxor", "and": "band", "or": "bor"}[name[:len(name)-2]] + "_" + name[len(name)-2:]
+		if c.strlits["$uf:"+ufn] == "" {
+			c.strlits["$uf:"+ufn] = "1"
+			fmt.Fprintf(&c.sb, "(declare-fun %s (Int Int) Int)\n", ufn)
+		}
+		return mkMath(app(ufn, a.S, b.S)), nil
 	case "isNaN", "isInf", "isFinite", "isNeg":
 		x, err := arg(0)
 		if err != nil {
@@ -982,8 +1028,8 @@ func (e *Env) typeExpr(ex ast.Expr) (types.Type, error) {
 		}
 	case *ast.SelectorExpr:
 		if id, ok := ex.X.(*ast.Ident); ok {
-			for path, p := range e.c.g.spkgs {
-				if path == id.Name || strings.HasSuffix(path, "/"+id.Name) {
+			for _, p := range e.c.g.findPkgs(id.Name) {
+				{
 					if o := p.Pkg.Scope().Lookup(ex.Sel.Name); o != nil {
 						if tn, ok := o.(*types.TypeName); ok {
 							return tn.Type(), nil
